@@ -191,6 +191,14 @@ pub fn run_plans(plans: &[Vec<PlannedStep>], cfg: sched::SimConfig) -> MtOutcome
                 expected: "no panic".into(),
                 actual: format!("PANIC: {}", msg),
             });
+        } else if report.deadlock {
+            f = Some(HFinding {
+                class: "deadlock".into(),
+                step: 0,
+                actor: 0,
+                expected: "every actor finishes".into(),
+                actual: format!("all live threads are stuck in primitives of the library for {} s", sched::WATCHDOG_S),
+            });
         } else if let Some(t) = report.no_progress {
             f = Some(HFinding {
                 class: "no-progress".into(),
@@ -240,10 +248,7 @@ pub fn run_one(batch_seed: u64, run_index: u64, out: &mut WorkerOut) -> bool {
     let plans = plan_threaded(&h, &mut d);
     let (cfg, strategy, enabled) = sched::seeded_config(stream(seed, STREAM_SCHEDULE), plans.len());
     let o = run_plans(&plans, cfg);
-    if o.report.watchdog {
-        out.stats.inc("inconclusive.blocked_outside_simulator");
-        return false;
-    }
+    out.stats.add("sched.forced_switches_from_blocked_threads", o.report.stalls);
     out.runs += 1;
     out.stats.inc("histories");
     out.stats.add("steps", o.steps);
@@ -290,7 +295,7 @@ pub fn run_one(batch_seed: u64, run_index: u64, out: &mut WorkerOut) -> bool {
         out.violations.push(body);
     }
     out.absorb_digest(run_index, dg.finish());
-    out.violations.len() < 5
+    out.violations.len() < 5 && !o.report.deadlock
 }
 
 fn replay_parts(replay: &Json) -> Result<(History, Vec<u16>, u32), String> {
